@@ -4,11 +4,11 @@ CONSTANTS
   NoOp = "none"
   MaxId = 4
   Last0 <- LastWrap
-  MaxItems = 1
-  ItemTypes <- EntOnly
-  MaxOrphans = 1
-  Kinds <- KindsAll
-  Tmo = {0, 2}
+  MaxItems = 2
+  ItemTypes <- AllItems
+  MaxOrphans = 0
+  Kinds <- KindsNoUnb
+  Tmo = {0}
   Horizon = 0
   AllowFaults = FALSE
   AbstractTime = TRUE
